@@ -442,7 +442,7 @@ impl Profile {
                 max_steps: 3,
                 p_serial: 5,
                 p_retry_tag: 30,
-                p_delay: 0,
+                p_delay: 15,
                 p_fail_unit: 15,
                 p_hook_fail: 8,
                 p_world_fail: 3,
